@@ -40,6 +40,22 @@ def handle : List String → String
       | .ok _ => "ok"
       | .error e => showErr e
     | _, _ => "bad-op"
+  | "chk" :: cache :: "W" :: rest =>
+    -- the checked-transaction entry on an OBJECT: `cache` = n (no metadata) | s (stale cached id) | f (fresh cached id)
+    let ws := rest.takeWhile (· != "I")
+    let is := (rest.dropWhile (· != "I")).drop 1
+    match ws.mapM parseWit, is.mapM parseInput with
+    | some table, some inputs =>
+      let witnesses : List Bytes := (List.range table.length).map (natBE 2)
+      -- the table holds the recovery of each witness over the id of the CURRENT content (= H _ = [1]);
+      -- over any other message (a stale id) the model's witness recovers to nothing the inputs own
+      let recover : Bytes → Bytes → Option Addr := fun w m => if m = [1] then (table[beNat w]?).join else some [0xEE]
+      let cached : Option Bytes := if cache == "n" then none else if cache == "f" then some [1] else some [0xFF]
+      match intoCheckedSignatures recover (fun c => c) (fun _ => [1]) 0 true ⟨⟨[], inputs, witnesses⟩, cached⟩ with
+      | some (.ok t) => if idOf (fun _ => [1]) 0 t = [1] then "ok id=cur" else "ok id=stale"
+      | some (.error e) => showErr e
+      | none => "bad-op"
+    | _, _ => "bad-op"
   | _ => "bad-op"
 
 def run : IO Unit := lineLoopPure handle
